@@ -5,8 +5,13 @@ use credx::knox::short_group_sig_core::short_group_traits::ShortGroupSignatureSc
 use credx::presentation::Presentation;
 use serde_json::json;
 
-fn run_suite<S: ShortGroupSignatureScheme>(em: &mut Emitter, rng: &mut Rng, suite: &str, n: usize) {
+fn run_suite<S: ShortGroupSignatureScheme>(em: &mut Emitter, base: &mut Rng, suite: &str, n: usize) {
+    let off = if suite == "bbs" { 0 } else { 1 };
     for k in 0..n {
+        if !em.mine(2 * k + off) {
+            continue;
+        }
+        let rng = &mut base.sub((2 * k + off) as u64);
         let mix = Mix::random(rng, k % 4 == 0);
         let scn = Scn::<S>::build(rng, &mix);
         let key = format!("{} {}", suite, mix.describe());
@@ -51,7 +56,11 @@ fn run_suite<S: ShortGroupSignatureScheme>(em: &mut Emitter, rng: &mut Rng, suit
         }
     }
     // chained equality statements over three credentials, in both listing orders
+    let rng = &mut base.sub(1_000_003 + off as u64);
     for order in [0, 1] {
+        if em.shard_i != 0 {
+            break;
+        }
         use credx::statement::*;
         use indexmap::IndexMap;
         let mix = Mix { n_creds: 3, n_claims: 3, disclosed: vec![vec![], vec![], vec![]], equality: false, age: 20, ..Default::default() };
